@@ -532,7 +532,8 @@ Inductive shaped : list fld -> rdata -> Prop :=
 | sh_max16 mx v fs r : 0 <= v <= mx -> v <= 65535 -> shaped fs r -> shaped (FMax16 mx :: fs) (PB (MessageM.u16 v) :: r)
 | sh_txt b : txt_ok b -> shaped [FTxt] [PB b]
 | sh_cnt8 d fs r : zlen d <= 255 -> shaped fs r -> shaped (FCnt8 :: fs) (PB (zlen d :: d) :: r)
-| sh_rest1 b : b <> [] -> shaped [FRest1] [PB b].
+| sh_rest1 b : b <> [] -> shaped [FRest1] [PB b]
+| sh_chk k b : chk k b = true -> shaped [FChk k] [PB b].
 
 Lemma txt_loop_ok : forall ss pre post fuel endp count,
   Forall (fun s => zlen s <= 255) ss ->
@@ -582,7 +583,7 @@ Lemma rd_em_read o : org_ok o -> forall fs rd, shaped fs rd ->
         = Ok (rev acc ++ rd', length (file ++ em))) /\
       (forall tq, tbl_ci tq t -> exists tq', rd_em rd' o c (zlen file) tq = Ok (em, tq') /\ tbl_ci tq' t').
 Proof.
-  intros OO fs rd S. induction S as [|n b fs r Hb S IH|n fs r S IH|n fs r S IH|n fs r NOa S IH|b|d fs r Hd S IH|mx v fs r Hv Hv2 S IH|b Hb|d fs r Hd S IH|b Hne];
+  intros OO fs rd S. induction S as [|n b fs r Hb S IH|n fs r S IH|n fs r S IH|n fs r NOa S IH|b|d fs r Hd S IH|mx v fs r Hv Hv2 S IH|b Hb|d fs r Hd S IH|b Hne|k b Hck];
     intros c file t em t' TS PO H.
   - injection H as <- <-. rewrite app_nil_r. split; [exact TS|]. exists []. split; [constructor|]. split; [constructor|]. split; [constructor|]. split.
     + intros ext acc. cbn [dec_fields]. rewrite app_nil_r. reflexivity.
@@ -769,6 +770,14 @@ Proof.
     replace (length (file ++ b) - length file)%nat with (length b) by (rewrite app_length; lia).
     destruct b as [|x b']; [congruence|]. cbn [length Nat.eqb].
     rewrite <- app_assoc. rewrite rd_bytes_at by (rewrite app_length; lia). cbn [bind rev]. reflexivity.
+  - (* FChk *)
+    cbn [rd_em] in H. injection H as <- <-. rewrite app_nil_r.
+    split; [apply TableSound_app; exact TS|]. exists [PB b].
+    split; [constructor; [reflexivity|constructor]|]. split; [exact PO|]. split; [constructor; exact Hck|].
+    split; [|intros tq TC; exists tq; split; [cbn [rd_em bind fst snd]; rewrite app_nil_r; reflexivity|exact TC]].
+    intros ext acc. cbn [dec_fields].
+    replace (length (file ++ b) - length file)%nat with (length b) by (rewrite app_length; lia).
+    rewrite <- app_assoc. rewrite rd_bytes_at by (rewrite app_length; lia). cbn [bind]. rewrite Hck. cbn [rev]. reflexivity.
 Qed.
 
 (* ---------- one RR ---------- *)
